@@ -1,6 +1,7 @@
 import QipVerif.Lemmas.TranspileRouteDen
 import QipVerif.Lemmas.TranspileTotal
 import QipVerif.Lemmas.TranspileSize
+import QipVerif.Lemmas.TranspileRzx
 /-!
 # C13 — transpilation targets the device: native gates, coupled qubits, same unitary
 
@@ -288,16 +289,6 @@ theorem size_tie :
       | (cases dev <;> rfl)
       | exact absurd h (by decide)
 
-/-- hence the regenerated `transpileOn` is one of the two modelled compositions -/
-theorem transpileOn_eq (dev : Device) (M N : Nat) (gs : List Gate) :
-    (sizeGuard = true → transpileOn dev M N gs =
-      transpileD tables preDecompose true (deviceSpec dev) (smallSpec dev) M N gs) ∧
-    (sizeGuard = false → transpileOn dev M N gs =
-      transpileD tables preDecompose false (deviceSpec dev) (deviceSpec dev) M N gs) := by
-  refine ⟨fun h => ?_, fun h => ?_⟩
-  · simp only [transpileOn, h, size_tie.1 h dev]
-  · simp only [transpileOn, h, size_tie.2 h dev]
-
 /-- `smallSpec` is a valid spec whose couplings, on a register smaller than the device, are couplings
 of the device -/
 theorem smallSpec_valid (dev : Device) :
@@ -312,6 +303,29 @@ theorem smallSpec_valid (dev : Device) :
   · exact ⟨rfl, Or.inr (Or.inl rfl), fun M N i j _ _ _ h => by
       simpa [smallSpec, deviceSpec, spec_SCQubits, coupledB, HwCoupled] using h⟩
   · exact ⟨rfl, Or.inl rfl, fun M N i j _ _ _ _ => trivial⟩
+
+/-- hence the regenerated `transpileOn` (the current source: its size check, its spec for smaller
+circuits, its router `routeRzx`) is, for every circuit of the class, one of the two modelled
+compositions — whichever router the source has (`transpileDR_eq`: a circuit without RZX is routed
+identically by both) -/
+theorem transpileOn_eq (dev : Device) (M N : Nat) (gs : List Gate) (hg : ∀ g ∈ gs, InClass N g) :
+    (sizeGuard = true → transpileOn dev M N gs =
+      transpileD tables preDecompose true (deviceSpec dev) (smallSpec dev) M N gs) ∧
+    (sizeGuard = false → transpileOn dev M N gs =
+      transpileD tables preDecompose false (deviceSpec dev) (deviceSpec dev) M N gs) := by
+  have hn : (deviceSpec dev).native.isSome = true := by rw [(native_valid dev).1]; rfl
+  refine ⟨fun h => ?_, fun h => ?_⟩
+  · have hns : (smallSpec dev).native.isSome = true := by rw [(smallSpec_valid dev).1]; rfl
+    simp only [transpileOn, h, size_tie.1 h dev]
+    exact transpileDR_eq _ _ _ hn hns hg
+  · simp only [transpileOn, h, size_tie.2 h dev]
+    exact transpileDR_eq _ _ _ hn hn hg
+
+/-- … and `transpile dev N gs`, which the theorems above are about, is the current source on every
+circuit of the class -/
+theorem transpile_is_source (dev : Device) (N : Nat) (gs : List Gate) (hg : ∀ g ∈ gs, InClass N g) :
+    transpileVR tables preDecompose routeRzx (deviceSpec dev) N gs = transpile dev N gs :=
+  transpileVR_eq _ _ (by rw [(native_valid dev).1]; rfl) hg
 
 /-- **transpile_coupled_device** (with `fixes/C13-2.patch`): for a processor with `M` qubits and a
 circuit of the class on `N ≤ M` qubits, any two distinct qubits of any gate of the transpiled circuit
@@ -431,6 +445,56 @@ theorem C13_counterexample_small_circuit_on_ring :
 theorem C13_counterexample_large_circuit :
     transpileD tables preDecompose false (deviceSpec .cavityQED) (deviceSpec .cavityQED) 3 5
       [⟨.ISWAP, [0, 4], [], {}⟩] = .ok [⟨.ISWAP, [0, 4], [], {}⟩] := by decide +kernel
+
+/-! ## RZX — native on SCQubits, not one of the resolvable gates
+
+`SCQubits.native_gates` lists RZX.  The router as found does not know the name and `resolve_gates` keeps a
+gate whose name is in the basis, so `SCQubits(3).transpile` returned RZX on targets [0, 2] unrouted — an
+accepted circuit with a two-qubit gate on qubits the open chain does not couple (`load_circuit` then
+raises `KeyError: 'zx02'`).  `fixes/C13-3.patch` makes `to_chain_structure` route RZX (C07:
+`route_shape_ord`, `route_den_C` — the two targets keep their order, RZX is not symmetric).  The router
+of the source is REGENERATED (`routeRzx`); `transpileVR tables pre rz` models both.  For the class of
+the theorems above (no RZX) the router is irrelevant (`transpile_is_source`).  With RZX admitted to the
+class (`InClassX`): -/
+
+/-- **transpile_coupled_rzx** (with `fixes/C13-3.patch`): circuits of resolvable gates AND RZX — every two
+distinct qubits of every gate of the transpiled circuit are coupled by the hardware. -/
+theorem transpile_coupled_rzx (dev : Device) (N : Nat) (gs out : List Gate) (hg : ∀ g ∈ gs, InClassX N g)
+    (h : transpileVR tables preDecompose true (deviceSpec dev) N gs = .ok out) :
+    ∀ x ∈ out, ∀ p ∈ x.qubits, ∀ q ∈ x.qubits, p ≠ q → HwCoupled dev N p q := by
+  obtain ⟨hb, _, _, ht, hhw⟩ := native_valid dev
+  rw [source_is_repaired] at h
+  obtain ⟨g1, hcls, h2⟩ := stagesR_fixed (by rw [hb]; rfl) ht hg h
+  intro x hx p hp q hq hne
+  have hc := nativeStage_coupled (fun y hy => (hcls y hy).2) h2 x hx
+  exact (hhw N p q).mp ((coupled_iff _ N x).mp hc p hp q hq hne)
+
+-- SCQubits(3), RZX on targets [0, 2] then [2, 0] and a Hadamard: accepted, RZX comes out on neighbours with
+-- its targets in their order; the spin chains (RZX not native) refuse the circuit
+example :
+    (∀ g ∈ [(⟨.RZX, [0, 2], [], {}⟩ : Gate), ⟨.RZX, [2, 0], [], {}⟩, ⟨.SNOT, [1], [], {}⟩], InClassX 3 g) ∧
+    ((transpileVR tables preDecompose true (deviceSpec .scQubits) 3
+        [⟨.RZX, [0, 2], [], {}⟩, ⟨.RZX, [2, 0], [], {}⟩, ⟨.SNOT, [1], [], {}⟩]).toOption.map
+      (fun out => out.all (gateCoupledB (some .linear) 3) && out.contains ⟨.RZX, [1, 2], [], {}⟩ &&
+        out.contains ⟨.RZX, [2, 1], [], {}⟩)) = some true ∧
+    (transpileVR tables preDecompose true (deviceSpec .linearSpinChain) 3 [⟨.RZX, [0, 2], [], {}⟩]).toOption = none ∧
+    (transpileVR tables preDecompose true (deviceSpec .cavityQED) 3 [⟨.RZX, [0, 2], [], {}⟩]).toOption = none := by
+  refine ⟨?_, by decide +kernel, by decide +kernel, by decide +kernel⟩
+  intro g hg
+  simp only [List.mem_cons, List.not_mem_nil, or_false] at hg
+  rcases hg with rfl | rfl | rfl
+  · exact ⟨by decide, Or.inr rfl⟩
+  · exact ⟨by decide, Or.inr rfl⟩
+  · exact ⟨by decide, Or.inl (by decide)⟩
+
+/-- counter-example for the router as found (`rz = false`): SCQubits, 3 qubits, RZX on targets [0, 2] is
+accepted and returned as it is — on qubits the open chain does not couple.  Confirmed on the real code. -/
+theorem C13_counterexample_rzx_unrouted :
+    InClassX 3 ⟨.RZX, [0, 2], [], {}⟩ ∧
+    transpileVR tables preDecompose false (deviceSpec .scQubits) 3 [⟨.RZX, [0, 2], [], {}⟩] =
+      .ok [⟨.RZX, [0, 2], [], {}⟩] ∧
+    ¬ HwCoupled .scQubits 3 0 2 := by
+  refine ⟨⟨by decide, Or.inr rfl⟩, by decide +kernel, by unfold HwCoupled; omega⟩
 
 /-! ## the code as found violates the coupling clause — concrete witnesses
 
